@@ -105,8 +105,12 @@ def main(seed, ncases, driver, out, mode="all"):
         # carriers: sparse arrays, or the dense arrays themselves (then also: the caller's arrays must come back unchanged)
         dense_in = rnd.random() < 0.3
         conv = (lambda m: np.array(m if np.abs(np.asarray(m).imag).max() > 0 else np.asarray(m).real)) if dense_in else sparse.csr_array
-        H = {(0,): conv(P["H0"]), (1,): conv(P["H1"])}
-        if P["H2"] is not None: H[(2,)] = conv(P["H2"])
+        # other energy units: the whole Hamiltonian times a power of two (exact), `atol` in the same units; U does not change, H_tilde scales along
+        # (the KPM solver reads its option `atol` twice — as the accuracy of the rescaled, dimensionless expansion and as the energy tolerance of the
+        # explicit part —, so its problems stay in units where both readings are harmless)
+        unit = 2.0 ** (rnd.choice([0, 0, 0, -23, -40, 20]) if P["solver"] == "direct" else rnd.choice([0, 0, -13, 20]))
+        H = {(0,): conv(P["H0"] * unit), (1,): conv(P["H1"] * unit)}
+        if P["H2"] is not None: H[(2,)] = conv(P["H2"] * unit)
         before = {n: (m.tobytes() if dense_in else (m.data.tobytes(), m.indices.tobytes(), m.indptr.tobytes())) for n, m in H.items()}
         rest = list(range(P["dA"], N))
         def realify(v): return v.real.copy() if np.abs(v.imag).max() == 0 else v
@@ -118,17 +122,19 @@ def main(seed, ncases, driver, out, mode="all"):
                 "solver": P["solver"], "explicit_energies": [complex(P["ev"][a]).real for a in sum(P["parts"], [])]}
         if len(samples) < 3: samples.append(desc)
         kw = {}; tol = 1e-8; kind = "direct"
+        if unit != 1.0: kw["atol"] = 1e-12 * unit; key += f" units=2^{int(np.log2(unit))}"; dist[key] = dist.get(key, 0) + 1
         if P["solver"] != "direct":
             kind = "kpm"; acc = 1e-7; tol = 300 * acc
-            kw = dict(direct_solver=False, solver_options={"atol": acc})
+            kw.update(direct_solver=False, solver_options={"atol": acc})
             if P["solver"] == "kpm-aux":
                 naux = rnd.randint(1, max(1, len(rest) - 1)); kw["solver_options"]["auxiliary_vectors"] = R[:, rest[:naux]]
         try:
             Hi, Ui, Vi = block_diagonalize(H, subspace_eigenvectors=vecsA, fully_diagonalize=P["fd"], hermitian=herm, **kw)
-            He, Ue, Ve = block_diagonalize(H, subspace_eigenvectors=vecsA + [basis(rest)], fully_diagonalize=P["fd"], hermitian=herm)
+            He, Ue, Ve = block_diagonalize(H, subspace_eigenvectors=vecsA + [basis(rest)], fully_diagonalize=P["fd"], hermitian=herm, **({"atol": kw["atol"]} if "atol" in kw else {}))
             nb = len(P["parts"]); bad = None
             def cmp(what, a, b, n, blk):
                 nonlocal bad, evals
+                if what == "H_tilde": a = a / unit; b = b / unit
                 err = float(np.abs(a - b).max()) if a.size else 0.0; evals += 1; worst[kind] = max(worst[kind], err / (1 + float(np.abs(b).max()) if b.size else 1))
                 if not err <= tol * (1 + (float(np.abs(b).max()) if b.size else 0)): bad = bad or {"series": what, "block": blk, "order": n, "err": err}
             for n in range(0, 4):
